@@ -13,3 +13,42 @@ def run_dep(task, ctx):
         r['name'] = 'dep.%s.%s' % (mod.lower(), r['name'])
     for b in ctx.bounded[b0:]:
         b['name'] = 'dep.%s.%s' % (mod.lower(), b['name'])
+
+
+def lean_lemma(ctx, fname, theorems, name):
+    """A glue lemma that is mathematics, not code: lemmas/<fname>.  Quick
+    tier: the file states the named theorems and contains no
+    sorry/axiom/admit.  Thorough tier: compiled by Lean 4 + Mathlib."""
+    import os
+    import re
+    import subprocess
+    import z3
+    from pyvc.symexec import Obligation
+    here = os.path.dirname(os.path.dirname(os.path.abspath(__file__)))
+    path = os.path.join(here, 'lemmas', fname)
+    try:
+        src = open(path).read()
+    except OSError:
+        src = ''
+    code = re.sub(r'/-.*?-/', '', src, flags=re.S)
+    code = re.sub(r'--.*', '', code)
+    ok = all(('theorem ' + t) in code for t in theorems) and not re.search(
+        r'\b(sorry|axiom|admit|native_decide)\b', code)
+    obs = [Obligation(name + '.stated_without_sorry', [], z3.BoolVal(
+        bool(ok)), path)]
+    if ctx.tier == 'thorough':
+        try:
+            p_ = subprocess.run(['lean', path], capture_output=True,
+                                text=True, timeout=1800,
+                                cwd=os.path.dirname(path))
+            good = p_.returncode == 0 and 'error' not in (p_.stdout +
+                                                          p_.stderr)
+            out = (p_.stdout + p_.stderr)[-300:]
+        except Exception as e:
+            good, out = False, str(e)[-200:]
+        obs.append(Obligation(name + '.compiled_by_lean', [], z3.BoolVal(
+            bool(good)), path, extra=dict(lean_output=out)))
+    else:
+        ctx.note('lemmas/%s is compiled by Lean only in the thorough tier'
+                 % fname)
+    ctx.prove(name, obs)
